@@ -180,6 +180,12 @@ impl<R> Archive<R> {
             .into_iter()
             .map(|v| v as usize)
             .collect();
+        if source_order
+            .iter()
+            .any(|&index| index >= archive_chunks.len())
+        {
+            return Err(ArchiveError::invalid_archive("invalid rebuild order"));
+        }
         Ok(Self {
             reader,
             archive_chunks,
